@@ -56,16 +56,16 @@ PopPan == RefRt("poppan", TRUE)
 StartVm == phase = "ref" /\ r.done # "no" /\ phase' = "vm" /\ UNCHANGED <<prog, r, left, np, nn, v>>
 Vm(kinds) == /\ phase = "vm" /\ VKind(prog, v) \in kinds /\ v' = VStep(prog, v)
              /\ UNCHANGED <<prog, r, left, np, nn, phase>>
-VmPrint == Vm({"vm-print"})
-VmCall == Vm({"vm-call"})
-VmDefer == Vm({"vm-defer", "vm-drecover"})
-VmDeferNative == Vm({"vm-dprint", "vm-dpanic", "vm-dstop", "vm-dfatal"})
-VmPanic == Vm({"vm-panic"})
-VmRecover == Vm({"vm-recover"})
-VmRecoverDown == Vm({"vm-recdown"})
-VmStop == Vm({"vm-stop"})
-VmFatal == Vm({"vm-fatal"})
-VmReturn == Vm({"vm-return"})
+VmPrint == Vm({"print"})
+VmCall == Vm({"call"})
+VmDefer == Vm({"defer", "drecover"})
+VmDeferNative == Vm({"dprint", "dpanic", "dstop", "dfatal"})
+VmPanic == Vm({"panic"})
+VmRecover == Vm({"recover"})
+VmRecoverDown == Vm({"recdown"})
+VmStop == Vm({"stop"})
+VmFatal == Vm({"fatal"})
+VmReturn == Vm({"return"})
 NcExit == Vm({"nc-exit"})
 NcStarted == Vm({"nc-started"})
 NcTailed == Vm({"nc-tailed"})                   \* OpTailCall is never emitted by the compiler: expected never taken
